@@ -56,7 +56,7 @@ func main() {
 	a := common.ParseArgs()
 	lib.SilenceLogs()
 	run := common.NewRun(a, "C02", "HV.Storage.C02Crash")
-	run.Meta.Rule = "a case is either the complete file-operation log of one workload (CLog) or one crash image of it (CImg): after n file operations, the durable image or the first k bytes of the volatile image (with current/durable/torn file header), loaded by the real chronicler, extended by a small workload with a new chronicler, and loaded again; non-trivial = the image ends strictly inside a block (block header or payload), or it is the durable image and holds at least one block; distinct = distinct (history, crash point, choice, observations)"
+	run.Meta.Rule = "a case is either the complete file-operation log of one workload of single- and multi-treasure chronicler.Write calls, Syncs and Closes (CLog) or one crash image of it (CImg): after n file operations, the durable image or the first k bytes of the volatile image (with current/durable/torn file header), loaded by the real chronicler, extended by a small workload with a new chronicler, and loaded again; non-trivial = the image ends strictly inside a block (block header or payload), or it is the durable image and holds at least one block; distinct = distinct (history, crash point, choice, observations)"
 	rng := common.NewRng(a.Seed, "C02")
 	self, err := os.Executable()
 	if err != nil {
